@@ -145,6 +145,7 @@ def run(tape, ctx: Ctx, transport_choice=None) -> None:
     if n_stops:
         ctx.fault_configured("stop")
     burst = 120 if pressure else 1
+    connect_stalls = tape.chance(1, 3, "connect-stalls?")
     ctx.decide("cfg", n_jobs, n_programs, transport, fault_budget, sorted(kinds), n_cancels, n_stops,
                bool(preexisting), len(failing))
 
@@ -152,6 +153,7 @@ def run(tape, ctx: Ctx, transport_choice=None) -> None:
     sim = Sim(tape, ctx, max_steps=max_steps)
     with simloop.installed(sim) as loop:
         server = ModelQuantumEngine(sim, ctx, transport, fault_budget, kinds, failing, preexisting)
+        server.connect_stalls = connect_stalls
         manager = sm.StreamManager(server.client)
 
         def is_subscribed(mid):
